@@ -17,6 +17,7 @@ import (
 	"github.com/apache/skywalking-banyandb/pkg/timestamp"
 	"github.com/apache/skywalking-banyandb/pkg/verif/ev"
 	"github.com/apache/skywalking-banyandb/pkg/verif/par"
+	"github.com/apache/skywalking-banyandb/pkg/verif/racep"
 	"github.com/apache/skywalking-banyandb/pkg/verif/sched"
 )
 
@@ -42,22 +43,35 @@ type world struct {
 	notes   []string
 }
 
+// The world's own bookkeeping goes through sched.Own: a plain call under the controlled scheduler, serialised by a
+// mutex in the free-running -race pass.
 func (w *world) see(s *storage.VSeg) {
-	for _, o := range w.segs {
-		if o.Same(s) {
-			return
+	sched.Own(func() {
+		for _, o := range w.segs {
+			if o.Same(s) {
+				return
+			}
 		}
-	}
-	w.segs = append(w.segs, s)
+		w.segs = append(w.segs, s)
+	})
 }
 
-func (w *world) bad(k string) { w.viol[k] = true }
+func (w *world) bad(k string) { sched.Own(func() { w.viol[k] = true }) }
+
+func (w *world) hold(s *storage.VSeg, d int) { sched.Own(func() { w.holders[s.Key()] += d }) }
+
+func (w *world) note(s string) { sched.Own(func() { w.notes = append(w.notes, s) }) }
+
+func (w *world) isClosing() (c bool) {
+	sched.Own(func() { c = w.closing })
+	return c
+}
 
 // hold registers a successful acquisition, lets others run, checks the resources, then releases.
 func (w *world) holdUseRelease(role string, segs []*storage.VSeg) {
 	for _, s := range segs {
 		w.see(s)
-		w.holders[s.Key()]++
+		w.hold(s, 1)
 	}
 	sched.Yield(role + ":use")
 	sched.Observe(func() {
@@ -74,7 +88,7 @@ func (w *world) holdUseRelease(role string, segs []*storage.VSeg) {
 		}
 	})
 	for _, s := range segs {
-		w.holders[s.Key()]--
+		w.hold(s, -1)
 		s.DecRef()
 	}
 }
@@ -90,7 +104,7 @@ var roles = []role{
 	{name: "query", kind: 'h', fn: func(w *world) {
 		ss, err := w.db.Select(allR, true)
 		if err != nil {
-			w.notes = append(w.notes, "query err: "+err.Error())
+			w.note("query err: " + err.Error())
 			return
 		}
 		w.holdUseRelease("query", ss)
@@ -108,9 +122,9 @@ var roles = []role{
 			return
 		}
 		w.see(s)
-		w.holders[s.Key()]++
+		w.hold(s, 1)
 		_, terr := s.Table()
-		w.holders[s.Key()]--
+		w.hold(s, -1)
 		if terr != nil {
 			w.bad("writer: CreateTSTableIfNotExist failed on a held segment: " + terr.Error())
 			s.DecRef()
@@ -129,7 +143,7 @@ var roles = []role{
 		// what the rotation loop does on each tick: segments(true) ... DecRef each
 		ss, err := w.db.Segments(true)
 		if err != nil {
-			w.notes = append(w.notes, "segments(true) err")
+			w.note("segments(true) err")
 			return // the caller has nothing to release
 		}
 		w.holdUseRelease("rotationTick", ss)
@@ -152,7 +166,7 @@ var roles = []role{
 	{name: "deleteExpiredA", kind: 'r', fn: func(w *world) { w.db.DeleteExpired([]string{tA.Format("20060102")}) }},
 	{name: "deleteExpiredB", kind: 'r', fn: func(w *world) { w.db.DeleteExpired([]string{tB.Format("20060102")}) }},
 	{name: "forcedDelete", kind: 'r', fn: func(w *world) { _, _ = w.db.DeleteOldest() }},
-	{name: "close", kind: 'r', fn: func(w *world) { w.closing = true; _ = w.db.Close() }},
+	{name: "close", kind: 'r', fn: func(w *world) { sched.Own(func() { w.closing = true }); _ = w.db.Close() }},
 }
 
 func roleByName(n string) role {
@@ -213,10 +227,10 @@ func setup(sc scenario, seq *int) sched.Harness {
 				// database.Close releases every segment regardless of holders (documented: "full shutdown");
 				// what a racing writer/query does after shutdown began is outside C14. A panic before shutdown is a verdict.
 				if p := recover(); p != nil {
-					if !w.closing {
+					if !w.isClosing() {
 						panic(p)
 					}
-					w.shutdownPanics++
+					sched.Own(func() { w.shutdownPanics++ })
 				}
 			}()
 			r.fn(w)
@@ -492,6 +506,21 @@ func main() {
 	if thorough {
 		budget = 40 * time.Minute
 	}
+	if os.Getenv("VERIF_PHASE") == "race" {
+		// the -race build: the same role bodies, detached, as plain goroutines (racep.Pass reads the detector's log)
+		base, err = os.MkdirTemp("/dev/shm", "c14race-")
+		if err != nil {
+			panic(err)
+		}
+		defer os.RemoveAll(base)
+		iters, seq := 5, 0
+		if thorough {
+			iters = 40
+		}
+		full := scenarios(thorough)
+		racep.Phase(iters, 6*time.Minute, len(full), func(i int) sched.Harness { return setup(full[i], &seq) })
+		return
+	}
 	if wi, wn, ok := par.Worker(); ok {
 		base, err = os.MkdirTemp("/dev/shm", "c14-")
 		if err != nil {
@@ -615,6 +644,9 @@ func main() {
 	r.Set("sequential_alphabet", seqOps)
 	r.Sample(map[string]any{"sequential_history": []string{"tickRotate", "expiredQuery", "queryOverIdle"}, "judged": "after every operation and after a final idle-reclaim + retention"})
 	execs += seqHist
+	if ev.Arg("--scenario") == "" {
+		racep.Pass(r, "c14")
+	}
 	r.Set("states", execs)
 	r.Set("transitions", execs)
 	r.Set("traces_validated_against_impl", execs)
@@ -644,6 +676,9 @@ func replay(p string) {
 	if err := json.Unmarshal(b, &a); err != nil {
 		fmt.Println(err)
 		os.Exit(2)
+	}
+	if racep.Replay(b, "c14") {
+		return
 	}
 	base, _ = os.MkdirTemp("/dev/shm", "c14r-")
 	defer os.RemoveAll(base)
